@@ -55,6 +55,11 @@ CATALOGUE = [
     ("tuple", [ARR("*#v"), ARR("#a")]),
     # a tuple that is an L by type but not by shape must stay a (failing) leaf, not be descended into
     ("union", [("tuple", [ARR("2"), ARR("3")]), ARR("...")]),
+    # array types that are themselves PyTree nodes: "any subtree that itself matches L counts as a leaf"
+    ("arrnode", "Float", "a"),
+    ("arrnode", "Shaped", "*v a"),
+    ("union", [("arrnode", "Float", "a b"), ARR("a")]),
+    ("tuple", [("arrnode", "Float", "a"), ("int",)]),
 ]
 
 
@@ -73,7 +78,7 @@ def required_counters(tier):
         "law.nested": 500,
         "law.bare": 500,
         "bindings_compared": 1000,
-        "L.pep604": 50, "hostile_values": 16, "identity_cases": 16,
+        "L.pep604": 50, "L.arrnode": 100, "hostile_values": 16, "identity_cases": 16,
     }
 
 
@@ -96,7 +101,7 @@ def leaf_gen(L, single, variadic):
         k = L[0]
         r = rng.random()
         if r < 0.10:
-            return rng.choice((1.5, "s", 3, None, (1, 2), (1, "x"), (1, 2, 3), GT.Point(1, 2), real.np_array((2,)), b"b"))
+            return rng.choice((1.5, "s", 3, None, (1, 2), (1, "x"), (1, 2, 3), GT.Point(1, 2), real.np_array((2,)), b"b", LT.NodeArr(real.np_array((2,)), 0)))
         if k == "int":
             return rng.choice((0, 1, 7, True))
         if k == "str":
@@ -113,6 +118,8 @@ def leaf_gen(L, single, variadic):
             return None if rng.random() < 0.3 else mk(rng, L[1])
         if k == "arr":
             return arr_for(rng, L[2], L[1])
+        if k == "arrnode":
+            return LT.NodeArr(arr_for(rng, L[2], L[1]), rng.choice((0, 1)))
         raise AssertionError(L)
 
     return mk
